@@ -18,7 +18,7 @@ MUTANTS = [
             return self""", """            self._jde = self._jde - b
             return self""")], 'any planet geocentric_position (epoch -= tau) or h -= x on an aliased Epoch'),
     ('angle-iadd-inplace', 'Angle.py', [("""        self = self + b
-        return self""", """        self._deg = Angle.reduce_deg(self._deg + float(b))
+        return self""", """        self._deg = (self + b)._deg
         return self""")], 'precession with proper motion (start_ra += ...), or += on an aliased Angle'),
     ('arg-to-positive', 'Coordinates.py', [("""    lon = longitude.rad()
     lat = latitude.rad()
